@@ -56,8 +56,8 @@ impl Property for C26 {
     }
     fn units(&self, tier: Tier) -> u64 {
         match tier {
-            Tier::Quick => 40_000,
-            Tier::Thorough => 800_000,
+            Tier::Quick => 300_000,
+            Tier::Thorough => 6_000_000,
         }
     }
 
